@@ -51,7 +51,7 @@ def generate(ctx):
     maxlen = 5 if quick else 6
     deep = 1 if quick else 2
     nsim = 12 if quick else 16
-    per = 12 if quick else 150          # behaviours of 100 queries each per simulation run
+    per = 12 if quick else 80           # behaviours of 100 queries (and 100 long strings) each per simulation run
     jobs = [("S", None), ("L", None)] + [("R", k) for k in range(nsim)]
 
     def job(j):
@@ -67,7 +67,7 @@ def generate(ctx):
         r.out = ""
         return mode, r, lines
     pool = None
-    toks, trees, rand = [], [], []
+    toks, trees, rand, longs = [], [], [], []
     stats = {}
     for mode, r, lines in ctx.pmap(job, jobs):
         if mode == "S":
@@ -82,6 +82,7 @@ def generate(ctx):
             trees.extend(v for v in lines if v.startswith('{"k":"q"'))
         else:
             rand.extend(v for v in lines if v.startswith('{"k":"q"'))
+            longs.extend('%s,"cm":0,"lite":false}' % v[:-1] for v in lines if v.startswith('{"k":"tok"'))
     want = sum(9 ** k for k in range(maxlen + 1))
     if pool is None or len(toks) != want or not trees or len(rand) < nsim * per * 50:
         raise vlib.Inconclusive("generation incomplete: pool=%s toks=%d/%d trees=%d random=%d" % (
@@ -96,9 +97,10 @@ def generate(ctx):
         if 0 < n <= 4:            # the same string with other runes for blank / multi-byte / letter / digit
             cm = 1 + (sum(int(c) for c in s.split(",")) + n + ctx.seed) % 3
             scripts.append('%s,"cm":%d,"lite":false}' % (v[:-1], cm))
+    scripts.extend(longs)
     scripts.extend(trees)
     scripts.extend(rand)
-    stats.update({"strings": len(toks), "maxlen": maxlen, "trees": len(trees), "random_trees": len(rand)})
+    stats.update({"strings": len(toks), "maxlen": maxlen, "long_strings": len(longs), "trees": len(trees), "random_trees": len(rand)})
     return pool, scripts, stats
 
 
@@ -346,7 +348,8 @@ def run(ctx):
         "rule": "one evaluation = one event judged by TLC against spec/QueryLangTrace.tla: (rt) a query built through the API from a "
                 "model tree -> Check -> Print -> ParseQuery -> Print, answers of both queries on %d typed and %d JSON witness records; "
                 "(txt) a model-rendered text of the documented grammar -> ParseQuery, answers, and the same print/parse loop; (tok) one "
-                "character string over 9 classes (all strings up to length %d) in a query context chosen by its predicted token list. "
+                "character string over 9 classes (all strings up to length %d, random ones of 7..30 characters) in a query context chosen by its "
+                "predicted token list. "
                 "Trees: every leaf of the exhaustive family wrapped %d time(s) (BFS) and random trees (depth <= 2, fan-out <= 3, simulation). "
                 "non-trivial: rt/txt events whose query is told apart from TRUE and FALSE by the witnesses; tok events of strings with a "
                 "judged token shape that parsed; distinct by (kind or context, script text)" % (
